@@ -17,7 +17,7 @@ func init() {
 		ID:          "C10",
 		Explanation: "History semantics of maps is behavioural; one representation clause is decided: a range never yields a key twice needs the side list `keys` duplicate-free and a superset of the live keys. REP-MAPKEYS, for stringMap and numericMap (sibling agreement): (a) `data` and `keys` are written only by the type's own methods and constructor; (b) every append to `keys` happens on a path where the key was tested absent from `data`; (c) absence from `data` implies absence from `keys` only if keys has no stale entries when Set appends: either every Delete path re-synchronises keys, or the appending path of Set runs under len(keys) == len(data) or re-synchronises first; (d) Range iterates a snapshot of keys taken at call time and yields a key only under a comma-ok hit in data. REP-MAPGET: Get is a comma-ok lookup returning (newZero(valueType), false) on a miss and (stored, true) on a hit; Value.Get on a nil map returns the zero of the element half of the type pair; Len is len(data). Not decided: 'lookups see the latest write' over histories (delegated to a Go map), at-most-once for keys inserted during the loop, host-side NewMap argument validation.",
 		Quick: []ruleDef{
-			{"REP-MAPKEYS", 25, ruleRepMapKeys},
+			{"REP-MAPKEYS", 16, ruleRepMapKeys},
 			{"REP-MAPGET", 7, ruleRepMapGet},
 		},
 	})
@@ -25,8 +25,8 @@ func init() {
 		ID:          "C11",
 		Explanation: "Slices behave like Go slices because each script operation is the same Go operation on the underlying []Value; the rules check the delegation is intact. REP-SLICE: sliceT.Slice returns a value whose data is the two-index slice expression s.data[i:j] (no make/copy/append: aliasing and capacity as in Go); Append is append(s.data, items...); Get/Set index s.data directly (out of range = Go's runtime panic, surfaced as an error) and Set converts with the element type; Len is len(s.data); COPY is the builtin copy over data() of both operands and Value.data() returns the slice's own backing slice; the nil-slice wrappers (Len, Range, Append, Slice) test v.value against nil. REP-STACKESCAPE: no sub-slice of the VM's operand stack flows into a function that retains its []Value parameter as a slice's data (the stack is overwritten by the next push) without an intervening make+copy; Value.Append (which retains only on its nil branch) may receive a stack view only under a receiver non-nil test. Not decided: histories; growth policy.",
 		Quick: []ruleDef{
-			{"REP-SLICE", 12, ruleRepSlice},
-			{"REP-STACKESCAPE", 16, ruleRepStackEscape},
+			{"REP-SLICE", 10, ruleRepSlice},
+			{"REP-STACKESCAPE", 10, ruleRepStackEscape},
 			{"REP-RAWSLICE", 5, ruleRepRawSlice},
 		},
 	})
@@ -35,7 +35,7 @@ func init() {
 		Explanation: "Ownership clauses of struct values: a new instance's Fields come from intMap.Copy() of the type's table (never the table itself) and Copy allocates a fresh pairs slice and copies into it; the instance's Methods is the same pointer as the type's; SetIndex goes through intMap.Assign, which converts with assign(existing.t), never inserts and never changes the count; GetIndex consults fields before methods; struct Values hold *structT (reference semantics); field order is kept in Order, appended only for a new name. REP-INTMAP decides the structural invariants of the field table that its lookups rely on: every slot access of every operation uses an index reduced modulo the table size on all paths (must-dataflow, interprocedural over new helpers), probe indices step by one, no partial scans, mask = size-1, power-of-two sizes, max < size-1 (an empty slot always exists), growth on total > max, distance 1 on insertion, lookups stop at distance 0, Delete's back-shift protocol, resize re-inserting at the key's own hash. REP-DEFTYPE / REP-DEFCONV: struct type / conversion resolution looks through defined-type aliases for plain and qualified names. Not decided: the induction from these invariants to lookup correctness over all histories (textbook argument, stated in DESIGN.md).",
 		Quick: []ruleDef{
 			{"REP-STRUCT", 8, ruleRepStruct},
-			{"REP-INTMAP", 21, ruleRepIntMap},
+			{"REP-INTMAP", 20, ruleRepIntMap},
 			{"REP-DEFTYPE", 2, ruleRepDefType},
 			{"REP-DEFCONV", 1, ruleRepDefConv},
 		},
@@ -44,8 +44,8 @@ func init() {
 		ID:          "C13",
 		Explanation: "Strings: delegation rules with Go's own constructs as oracle. REP-STRING: stringT.Len is len(s); Get indexes the string and wraps the byte with the uint8 constructor; Slice is s[i:j]; the key yielded by Range derives from the index variable of a Go range over s (byte offsets) and the value from its rune variable; opAdd/opLt/opLte/Equals apply + < <= == to stringT operands; convert uses string(rune(.)), []byte(.) and string([]byte); no method writes through s. PAN-ERRDROP(literals): token.go's decoders do not discard the error of strconv.Unquote*/Parse*, and UnquoteChar is given the single quote it is inside. LIT-CONSTKEY: a literal kept in the constant table is keyed by the token's own spelling, the same key for Set and for the CONST operand. Not decided: escapes beyond what strconv decides; invalid UTF-8 (delegated to Go's range/conversions).",
 		Quick: []ruleDef{
-			{"REP-STRING", 18, ruleRepString},
-			{"PAN-ERRDROP-LIT", 5, ruleErrDropLit},
+			{"REP-STRING", 11, ruleRepString},
+			{"PAN-ERRDROP-LIT", 4, ruleErrDropLit},
 			{"LIT-DELEGATE", 4, ruleLitDelegate},
 			{"LIT-CONSTKEY", 2, ruleLitConstKey},
 		},
@@ -54,7 +54,7 @@ func init() {
 		ID:          "C14",
 		Explanation: "REP-PRINT, termination: in every SafeStr method the recursive rendering of an element is preceded, in the same iteration, by the isSafeStr guard that returns the elision; isSafeStr is false for exactly the tags whose String iterates elements (slice, map, struct); every String method of a container renders elements through safeStr (so nesting below a container is cut at depth 2 and rendering terminates on cyclic graphs). Dispatch: numeric tags render fmt.Sprint of the Go number, strings raw, booleans through Bool(); vaSprint joins with one space; struct rendering ranges the Order slice (declaration order), never the Lookup map, and addField appends to Order only for a new name. REP-ORDER: Order (shared by all instances as a slice header) only grows by append to itself, is never truncated/re-sliced/stored into, and no loop over a map appends to it. Not decided: textual equality with %v (value level); depth>=3 prints [...] where Go prints the full value (a known divergence this family cannot detect by rule).",
 		Quick: []ruleDef{
-			{"REP-PRINT", 20, ruleRepPrint},
+			{"REP-PRINT", 12, ruleRepPrint},
 			{"REP-ORDER", 2, ruleRepOrder},
 		},
 	})
